@@ -60,7 +60,7 @@ THEOREMS = [
         "newmark_accel_converges_scalar newmark_initial_accel_error_scalar newmark_initial_accel_first_order "
         "newmark_initial_accel_defect newmark_last_step_converges_scalar "
         # Props/C17Modal.lean, Props/C17Energy.lean: convergence for coupled (full) matrices
-        "newmark_modal_decomposition newmark_converges_modal_full newmark_energy_stable_full "
+        "newmark_modal_decomposition newmark_converges_modal_full newmark_velocity_converges_modal_full newmark_energy_stable_full "
         "newmark_truncation_bound_full newmark_converges_energy_partial newmark_converges_energy "
         "newmark_converges_energy_second_order "
         # Props/C17Nonlin.lean: nonlinear terms, call sequences
@@ -128,7 +128,8 @@ PARTIAL = (
     "accelerations are proved for the scalar equation (newmark_velocity_converges_scalar, newmark_accel_converges_scalar, "
     "newmark_last_step_converges_scalar, newmark_initial_accel_*: interior and last step keep the order of the displacements, "
     "v_0 is exact, a_0 is first order when balanced and NOT consistent when unbalanced (a_0 -> u''(0)/3, newmark_initial_accel_defect), "
-    "a_1 does not converge when unbalanced) - for coupled matrices they follow mode by mode but are not stated; a singular mass "
+    "a_1 does not converge when unbalanced) - for coupled, modally damped matrices the velocities are lifted "
+    "(newmark_velocity_converges_modal_full), the accelerations and the general-damping (energy) case of v, a are not stated; a singular mass "
     "(massless rows) is outside the convergence theorems (mu > 0): stability and the quasi-static rows only; (2) the exact solution "
     "with four bounded derivatives is a hypothesis (existence not proved); (3) nonlinear terms: the recurrence with the lagged N "
     "is proved for arbitrary callbacks (newmark_nonlin_is_documented) and for arbitrary call sequences on one object "
@@ -176,7 +177,7 @@ MANIFEST = {
     "constants (`newmark_velocity_converges_scalar`, `newmark_accel_converges_scalar`, `newmark_last_step_converges_scalar`, "
     "`newmark_initial_accel_error_scalar`, `newmark_initial_accel_first_order`, `newmark_initial_accel_defect`: a_0 -> u''(0)/3 when "
     "unbalanced); COUPLED convergence: the coupled run is Phi times the scalar runs (`newmark_modal_decomposition`) hence "
-    "`newmark_converges_modal_full`, and for any symmetric M >= mu^2, K >= 0, <Bx,x> >= 0 the energy method with forcing "
+    "`newmark_converges_modal_full` / `newmark_velocity_converges_modal_full`, and for any symmetric M >= mu^2, K >= 0, <Bx,x> >= 0 the energy method with forcing "
     "(`newmark_energy_stable_full`), vector Taylor truncation bound (`newmark_truncation_bound_full`), "
     "`newmark_converges_energy_partial` (consistency as hypotheses) and `newmark_converges_energy` / "
     "`newmark_converges_energy_second_order` (hypotheses discharged from four bounded derivatives); nonlinear terms: `def_nonlin` "
@@ -191,7 +192,7 @@ MANIFEST = {
     "m = None and the dictionary of nonlinear terms runs through the model (`tsolveRf`, `matSysOpt`, `defNonlin`); sol.z through `zOut`; "
     "cd-as-force accelerations and get_f2x through the model; an EXACT stream: on dyadic inputs where no operation rounds "
     "(decided by an independent rational evaluation) model, implementation and rational history agree bit for bit. Partial: "
-    "velocities/accelerations for coupled matrices not stated; convergence with nonlinear terms not proved; SolveCDF global "
+    "accelerations for coupled matrices (and v, a under general damping) not stated; convergence with nonlinear terms not proved; SolveCDF global "
     "convergence conditional (stability constant and O(h^3) residual are hypotheses).",
     "level_note": "Trusted: Lean kernel; propext, Classical.choice, Quot.sound; the Python harness; LU solves modelled "
     "by their specification; get_su_coef coefficients taken from the solver (C01); the exact solution with four bounded "
